@@ -138,6 +138,21 @@ pub struct SetModel {
     pub ones: Vec<usize>,
 }
 
+/// What the generic checker needs from a reference model.
+pub trait Model {
+    fn n(&self) -> usize;
+    fn m(&self) -> usize;
+    fn zeros(&self) -> usize {
+        self.n().saturating_sub(self.m())
+    }
+    fn get(&self, i: usize) -> bool;
+    fn rank(&self, i: usize) -> usize;
+    fn select(&self, r: usize) -> Option<usize>;
+    fn select_zero(&self, r: usize) -> Option<usize>;
+    fn predecessor(&self, v: usize) -> Option<(usize, usize)>;
+    fn successor(&self, v: usize) -> Option<(usize, usize)>;
+}
+
 impl SetModel {
     pub fn new(n: usize, ones: Vec<usize>) -> SetModel {
         SetModel { n, ones }
@@ -145,23 +160,29 @@ impl SetModel {
     pub fn from_bits(b: &Bits) -> SetModel {
         SetModel { n: b.len, ones: b.positions() }
     }
-    pub fn m(&self) -> usize {
+    pub fn runs(&self) -> Vec<(usize, usize)> {
+        runs_of(&self.ones)
+    }
+}
+
+impl Model for SetModel {
+    fn n(&self) -> usize {
+        self.n
+    }
+    fn m(&self) -> usize {
         self.ones.len()
     }
-    pub fn zeros(&self) -> usize {
-        self.n.saturating_sub(self.ones.len())
-    }
-    pub fn get(&self, i: usize) -> bool {
+    fn get(&self, i: usize) -> bool {
         self.ones.binary_search(&i).is_ok()
     }
-    pub fn rank(&self, i: usize) -> usize {
+    fn rank(&self, i: usize) -> usize {
         self.ones.partition_point(|&p| p < i)
     }
-    pub fn select(&self, r: usize) -> Option<usize> {
+    fn select(&self, r: usize) -> Option<usize> {
         self.ones.get(r).copied()
     }
     /// Only meaningful for sets (no duplicates).
-    pub fn select_zero(&self, r: usize) -> Option<usize> {
+    fn select_zero(&self, r: usize) -> Option<usize> {
         if r >= self.zeros() {
             return None;
         }
@@ -178,7 +199,7 @@ impl SetModel {
         Some(r + lo)
     }
     /// (rank, position) of the last element <= v
-    pub fn predecessor(&self, v: usize) -> Option<(usize, usize)> {
+    fn predecessor(&self, v: usize) -> Option<(usize, usize)> {
         let k = self.ones.partition_point(|&p| p <= v);
         if k == 0 {
             None
@@ -187,12 +208,113 @@ impl SetModel {
         }
     }
     /// (rank, position) of the first element >= v
-    pub fn successor(&self, v: usize) -> Option<(usize, usize)> {
+    fn successor(&self, v: usize) -> Option<(usize, usize)> {
         let k = self.ones.partition_point(|&p| p < v);
         self.ones.get(k).map(|&p| (k, p))
     }
-    pub fn runs(&self) -> Vec<(usize, usize)> {
-        runs_of(&self.ones)
+}
+
+//-----------------------------------------------------------------------------
+
+/// Maximal runs of set bits with prefix sums: a model for vectors with up to usize::MAX bits and set bits.
+#[derive(Clone, Debug)]
+pub struct RunModel {
+    pub n: usize,
+    /// maximal runs (start, len), sorted, non-adjacent
+    pub runs: Vec<(usize, usize)>,
+    /// number of set bits before each run
+    pub cum: Vec<usize>,
+    pub ones: usize,
+}
+
+impl RunModel {
+    /// `runs` must be sorted and non-overlapping; adjacent runs are merged here.
+    pub fn new(n: usize, runs: &[(usize, usize)]) -> RunModel {
+        let mut merged: Vec<(usize, usize)> = Vec::new();
+        for &(s, l) in runs {
+            if l == 0 {
+                continue;
+            }
+            match merged.last_mut() {
+                Some((ps, pl)) if *ps + *pl == s => *pl += l,
+                _ => merged.push((s, l)),
+            }
+        }
+        let mut cum = Vec::with_capacity(merged.len());
+        let mut ones = 0usize;
+        for &(_, l) in &merged {
+            cum.push(ones);
+            ones += l;
+        }
+        RunModel { n, runs: merged, cum, ones }
+    }
+    fn zeros_before_run(&self, k: usize) -> usize {
+        self.runs[k].0 - self.cum[k]
+    }
+}
+
+impl Model for RunModel {
+    fn n(&self) -> usize {
+        self.n
+    }
+    fn m(&self) -> usize {
+        self.ones
+    }
+    fn get(&self, i: usize) -> bool {
+        let idx = self.runs.partition_point(|&(s, _)| s <= i);
+        idx > 0 && i - self.runs[idx - 1].0 < self.runs[idx - 1].1
+    }
+    fn rank(&self, i: usize) -> usize {
+        let idx = self.runs.partition_point(|&(s, _)| s < i);
+        if idx == 0 {
+            0
+        } else {
+            let (s, l) = self.runs[idx - 1];
+            self.cum[idx - 1] + l.min(i - s)
+        }
+    }
+    fn select(&self, r: usize) -> Option<usize> {
+        if r >= self.ones {
+            return None;
+        }
+        let idx = self.cum.partition_point(|&c| c <= r);
+        let (s, _) = self.runs[idx - 1];
+        Some(s + (r - self.cum[idx - 1]))
+    }
+    fn select_zero(&self, r: usize) -> Option<usize> {
+        if r >= self.zeros() {
+            return None;
+        }
+        // smallest k such that the number of zeros before run k exceeds r
+        let (mut lo, mut hi) = (0usize, self.runs.len());
+        while lo < hi {
+            let mid = lo + (hi - lo) / 2;
+            if self.zeros_before_run(mid) > r {
+                hi = mid;
+            } else {
+                lo = mid + 1;
+            }
+        }
+        let ones_before = if lo == self.runs.len() { self.ones } else { self.cum[lo] };
+        Some(r + ones_before)
+    }
+    fn predecessor(&self, v: usize) -> Option<(usize, usize)> {
+        let idx = self.runs.partition_point(|&(s, _)| s <= v);
+        if idx == 0 {
+            return None;
+        }
+        let (s, l) = self.runs[idx - 1];
+        let pos = v.min(s + (l - 1));
+        Some((self.cum[idx - 1] + (pos - s), pos))
+    }
+    fn successor(&self, v: usize) -> Option<(usize, usize)> {
+        let idx = self.runs.partition_point(|&(s, l)| s + (l - 1) < v);
+        if idx == self.runs.len() {
+            return None;
+        }
+        let (s, _) = self.runs[idx];
+        let pos = v.max(s);
+        Some((self.cum[idx] + (pos - s), pos))
     }
 }
 
@@ -214,8 +336,8 @@ pub const EXTREMES: [usize; 6] = [1usize << 63, (1usize << 63) + 1, usize::MAX /
 
 impl Plan {
     /// every argument in 0..=n+1 / 0..=m+1 plus extreme values
-    pub fn all(model: &SetModel) -> Plan {
-        let n = model.n;
+    pub fn all<M: Model + ?Sized>(model: &M) -> Plan {
+        let n = model.n();
         let m = model.m();
         let mut idx: Vec<usize> = (0..=n.saturating_add(1)).collect();
         idx.extend_from_slice(&EXTREMES);
@@ -228,8 +350,8 @@ impl Plan {
     }
 
     /// boundary arguments (ends, structural edges, neighbourhoods of up to `k` set bits spread over the set) plus `extra`
-    pub fn sampled(model: &SetModel, k: usize, extra_idx: &[usize], extra_ranks: &[usize], iter_limit: usize) -> Plan {
-        let n = model.n;
+    pub fn sampled<M: Model + ?Sized>(model: &M, k: usize, extra_idx: &[usize], extra_ranks: &[usize], iter_limit: usize) -> Plan {
+        let n = model.n();
         let m = model.m();
         let mut idx: Vec<usize> = vec![0, 1, 2, 63, 64, 65, 511, 512, 513, 4095, 4096, 4097, 65535, 65536, 65537];
         for d in 0..3usize {
@@ -258,7 +380,7 @@ impl Plan {
             let step = (m / k).max(1);
             let mut r = 0;
             while r < m {
-                let p = model.ones[r];
+                let p = model.select(r).unwrap();
                 idx.push(p.saturating_sub(1));
                 idx.push(p);
                 idx.push(p.saturating_add(1));
@@ -269,7 +391,7 @@ impl Plan {
                 zranks.push(zr);
                 r += step;
             }
-            let p = model.ones[m - 1];
+            let p = model.select(m - 1).unwrap();
             idx.push(p.saturating_sub(1));
             idx.push(p);
             idx.push(p.saturating_add(1));
@@ -302,11 +424,12 @@ macro_rules! expect {
 }
 
 /// Compare every operation of a bitvector with the model for the arguments in the plan.
-pub fn check_bitvec<'a, T>(bv: &'a T, model: &SetModel, plan: &Plan, name: &str) -> Result<(), Fail>
+pub fn check_bitvec<'a, T, M>(bv: &'a T, model: &M, plan: &Plan, name: &str) -> Result<(), Fail>
 where
     T: BitVec<'a> + Rank<'a> + Select<'a> + SelectZero<'a> + PredSucc<'a>,
+    M: Model + ?Sized,
 {
-    let n = model.n;
+    let n = model.n();
     let m = model.m();
     expect!(name, "len", bv.len(), n, "len()");
     expect!(name, "is_empty", bv.is_empty(), n == 0, "is_empty()");
@@ -370,7 +493,8 @@ where
     if m <= plan.iter_limit {
         let mut it = bv.one_iter();
         expect!(name, "one_iter", it.len(), m, "one_iter().len()");
-        for (r, &p) in model.ones.iter().enumerate() {
+        for r in 0..m {
+            let p = model.select(r).unwrap();
             let got = it.next();
             if got != Some((r, p)) {
                 return fail(name, "one_iter", format!("item {} = {:?}, model says {:?}", r, got, Some((r, p))));
@@ -385,7 +509,7 @@ where
         let mut r = 0usize;
         let mut next_one = 0usize;
         for i in 0..n {
-            if next_one < m && model.ones[next_one] == i {
+            if next_one < m && model.select(next_one) == Some(i) {
                 next_one += 1;
                 continue;
             }
@@ -403,7 +527,7 @@ where
         let mut next_one = 0usize;
         for i in 0..n {
             let mut want = false;
-            while next_one < m && model.ones[next_one] == i {
+            while next_one < m && model.select(next_one) == Some(i) {
                 want = true;
                 next_one += 1;
             }
